@@ -134,6 +134,11 @@ func afLeavesNoRoom(c *MCall) bool {
 	return 184-a.Size() < need
 }
 
+// afCannotFit: the caller's adaptation field alone is larger than the 184 bytes a packet has behind its header.
+func afCannotFit(c *MCall) bool {
+	return c.AF != nil && toRefAF(c.AF).Size() > 184
+}
+
 // Step analyses call i of the trace and advances the model. It returns the violations
 // located at this call.
 func (m *MuxMon) Step(h *MuxH, i int) (vs []Viol) {
@@ -150,7 +155,10 @@ func (m *MuxMon) Step(h *MuxH, i int) (vs []Viol) {
 	if (c.Op.K == "tables" || c.Op.K == "data" || c.Op.K == "pkt") && c.N != len(out) {
 		add("C04", "count-mismatch:"+c.Op.K+":"+c.Op.Pkt, "returned n=%d but %d bytes reached the writer (err=%v)", c.N, len(out), c.Err)
 	}
-	if c.Err != nil && len(out) != 0 {
+	// a WriteData whose adaptation field cannot fit a packet at all has to be refused; it may be refused after the
+	// tables that were due have been written (whole packets, counted), so its output is judged further down
+	unwritable := c.Op.K == "data" && afCannotFit(c)
+	if c.Err != nil && len(out) != 0 && !unwritable {
 		add("C04", "rejected-call-left-bytes:"+c.Op.K+":"+c.Op.Pkt, "call failed (%v) but left %d bytes in the output", c.Err, len(out))
 	}
 	if c.Op.K != "tables" && c.Op.K != "data" && c.Op.K != "pkt" && len(out) != 0 {
@@ -297,6 +305,24 @@ func (m *MuxMon) Step(h *MuxH, i int) (vs []Viol) {
 		nt++
 	}
 	emitted := nt > 0
+	if unwritable && known && c.Err != nil {
+		// (a call that is accepted although its adaptation field cannot be written is C01's subject: the field is
+		// dropped, known finding af-no-room-dropped; here the output only has to be whole packets)
+		{
+			if len(ps) != nt || !okDecode {
+				add("C04", "rejected-call-left-bytes:data:", "call failed (%v) but left packets of the unit (or a partial packet) in the output", c.Err)
+			}
+			if emitted && tablesPossible && may && nt == 2 && okDecode && ps[0].PID == 0 && ps[1].PID == 0x1000 {
+				m.checkTables(h, c, ps[0], ps[1], add)
+				m.Lo, m.Hi = 0, 0
+			} else if emitted {
+				add("C17", "tables-unexpected", "a refused call wrote %d table packets (due=%v possible=%v)", nt, may, tablesPossible)
+			} else {
+				m.Hi++
+			}
+			return
+		}
+	}
 	if c.Err != nil {
 		// failure: legitimate only if tables had to (or could) be generated and cannot be
 		if tablesPossible || !may {
